@@ -42,7 +42,7 @@ def main():
     if args[:1] == ["-j"]:
         jobs = int(args[1])
         args = args[2:]
-    tags = args or sorted(os.listdir(os.path.join(HERE, "seeded")))
+    tags = args or sorted(d for d in os.listdir(os.path.join(HERE, "seeded")) if d.startswith("C"))
     scratch = tempfile.mkdtemp(prefix="seedreg-")
     bad = []
     try:
